@@ -28,6 +28,7 @@ def addresses(seed, aw):
         a = bytes([first + k]) + body[1:]
         out[name] = a
     out["B5"] = out["T5"][:4] + bytes([out["T5"][4] ^ 0x5A])
+    out["SH"] = bytes([first + 5, 0x9E])  # shorter than every address width: alters the first bytes of the existing address
     if aw < 5:
         out["AS"] = out["AS"][:aw]  # an address exactly as long as the address width
         out["SUB"] = out["T5"][1:1 + aw]  # aw bytes that occur INSIDE the TX address buffer (at offset 1)
@@ -44,6 +45,7 @@ def alphabet(cls_name, aw):
             ops.append(("orx", p, n))
     if aw < 5:
         ops.append(("orx", 0, "SUB"))
+    ops.append(("orx", 0, "SH"))
     ops += [("crx", 0), ("crx", 1)]
     ops += [("otx", "T5"), ("otx", "U5"), ("otx", "A5")]
     if cls_name != "lite":  # rf24_lite has no auto_ack attribute (always on)
@@ -156,8 +158,14 @@ def step(st, op, ctx):
     scratch = []
     try:
         if kind == "orx":
+            given = A[op[2]]
+            if len(given) < aw:
+                # documented: "The existing address can be altered by writing a bytearray with a length less than 5" - the
+                # pipe is opened on the given bytes followed by what the address register held above them (datasheet:
+                # a shorter write leaves the upper bytes of a 5-byte register alone); ground truth taken before the call
+                given = given + bytes(radio.a[0x0A + op[1]])[len(given):aw]
             drv.open_rx_pipe(op[1], arg(op[2]))
-            m.open_rx_pipe(op[1], A[op[2]])
+            m.open_rx_pipe(op[1], given)
         elif kind == "crx":
             drv.close_rx_pipe(op[1])
             m.close_rx_pipe(op[1])
@@ -356,8 +364,8 @@ def run(tier, seed, rep, only=None):
         bounds=b,
         trusted_base=["vf/sim.py (nRF24L01+ behavioural model: address registers with partial writes, EN_RXADDR, ACK reception "
                       "on pipe 0 only if ERX_P0 and RX_ADDR_P0==TX_ADDR, CE/PRIM_RX state machine)", "vf/ref/pipe0.py"],
-        assumptions=["addresses are at least address_length bytes long (shorter ones rely on the radio's partial-write semantics, "
-                     "which the property does not define)", "seed-derived address bytes, not all 2^40 values",
+        assumptions=["an address shorter than address_length alters the first bytes of the address the pipe register holds at that moment "
+                     "(docs/core_api/basic_api.rst, open_rx_pipe; datasheet partial-write semantics): the 2-byte operand SH", "seed-derived address bytes, not all 2^40 values",
                      "'TX mode' = PWR_UP=1 and PRIM_RX=0; a powered-down radio straight after the constructor is in neither mode",
                      "CPython 3.12 only"],
         min_outcomes=6,
